@@ -6,7 +6,7 @@ import SciVerif.Tie.Pins
 the Lean model transcribes, and the order of the decoding steps in `FinalizePaths`. -/
 namespace SciVerif.Tie
 -- functions the model relies on without an obligation of its own naming them (pinned by bin/mkpins):
--- PIN-ALSO: Scipipe.createDirs Scipipe.FileIP_createDirs Scipipe.FileIP_Path Scipipe.FileIP_FinalizePath Scipipe.FileIP_OpenTemp Scipipe.FileIP_Open
+-- PIN-ALSO: Scipipe.createDirs Scipipe.FileIP_createDirs Scipipe.FileIP_Path Scipipe.FileIP_FinalizePath Scipipe.FileIP_OpenTemp Scipipe.FileIP_Open Scipipe.FileIP_Write Scipipe.FileIP_Read
 open SciVerif.Generated
 
 theorem generated_consts_c13 : constsMatch = true := by decide
@@ -55,6 +55,7 @@ theorem generated_o_case_for_c13 : oPlace = .temp ∧ renameSrcTemp = true := by
 
 
 
+
 -- BEGIN PINS (written by bin/mkpins; do not edit by hand)
 /-- the Go functions this property's model and obligations were written against have exactly the
 pinned skeletons (SHA-256 prefix of the atom list) -/
@@ -65,8 +66,10 @@ theorem pinned_skeletons_c13 :
      ("Scipipe.FileIP_Open", "48d6413ed8457c06"),
      ("Scipipe.FileIP_OpenTemp", "673ff13758b5aa90"),
      ("Scipipe.FileIP_Path", "c6a514b4100d9a7c"),
+     ("Scipipe.FileIP_Read", "0ea4c94276382a8a"),
      ("Scipipe.FileIP_TempDir", "36eed961c5125267"),
      ("Scipipe.FileIP_TempPath", "7eba22a35232a5cb"),
+     ("Scipipe.FileIP_Write", "8a03377cb8fd8d9d"),
      ("Scipipe.FileIP_createDirs", "04008d08d8a14234"),
      ("Scipipe.FinalizePaths", "291fc0cefa37cea9"),
      ("Scipipe.Task_createDirs", "bac0633be6d72f5b"),
